@@ -309,6 +309,60 @@ def check_constructs(ctx, fi, vdesc, trace, mach):
                            "row id must not become a property"), nontrivial_key=("ctor", cls))
 
 
+def r_autoinsert(ctx: Ctx, model, mach):
+    """an uploaded item comes back: with autoinsert_properties left at its default (or True) every property row refers to a property type
+    that is known to exist when the row is inserted - found among the stored types, or registered earlier in the same transaction;
+    with autoinsert_properties=False nothing is registered on the caller's behalf (an unknown type is then refused by the foreign key)"""
+    ctx.rule("D-upload: adsorbate_to_db / material_to_db (autoinsert_properties omitted, True, False) on every answer of the type look-up: "
+             "each property row's type was found stored or was registered before the row; False registers nothing")
+    I = mach.I
+    n = 0
+    for kind, mk in (("adsorbate", C09.mk_ads), ("material", C09.mk_mat)):
+        fi = model.func(f"pygaps.parsing.sqlite.{kind}_to_db")
+        ptable, ttable = f"{kind}_properties", f"{kind}_properties_type"
+        for how in ("omitted", True, False):
+            def thunk(I, mk=mk, fi=fi, how=how):
+                kw = {"db_path": "USER.db", "verbose": False}
+                if how != "omitted":
+                    kw["autoinsert_properties"] = how
+                return I.call_func(fi, [mk(I)], kw, None)
+            for oc, trace in mach.explore(thunk):
+                if oc.kind != "ok" or any(e[0] == "fault" for e in trace):
+                    continue
+                n += 1
+                found = set()
+                for lbl, c in oc.decisions:
+                    mt = re.match(r"'([^']+)' in \[row:" + re.escape(ttable) + r"\[type\]\]", lbl)
+                    if mt and c == 1:
+                        found.add(mt.group(1))
+                registered, problems, any_reg = set(), [], False
+                for e in trace:
+                    if e[0] != "bind" or e[1] != "INSERT":
+                        continue
+                    rows = e[3] if isinstance(e[3], (list, tuple)) else [e[3]]
+                    for row in rows:
+                        if not isinstance(row, dict):
+                            continue
+                        if e[2] == ttable:
+                            registered.add(row.get("type"))
+                            any_reg = True
+                        elif e[2] == ptable and how is not False:
+                            t = row.get("type")
+                            if t not in found and t not in registered:
+                                problems.append(t)
+                if how is False:
+                    ctx.ob(not any_reg, Finding("C08.D-upload", fi.where, f"{fi.name}|autoinsert=False|registers-types",
+                                                f"{fi.name}(autoinsert_properties=False) registers property types {sorted(map(str, registered))}: the caller asked "
+                                                "for unknown types to be refused"), nontrivial_key=("autoinsert", kind, "False", tuple(c for _, c in oc.decisions)))
+                else:
+                    ctx.ob(not problems, Finding("C08.D-upload", fi.where, f"{fi.name}|autoinsert={how}|unregistered:{sorted(set(map(str, problems)))}",
+                                                 f"{fi.name}(autoinsert_properties {how}): property rows of type {sorted(set(map(str, problems)))} are inserted although "
+                                                 f"the type was neither found in {ttable} (answers {[(l, c) for l, c in oc.decisions][:4]}) nor registered before: the "
+                                                 "foreign key refuses the upload of an item with a new property"),
+                           nontrivial_key=("autoinsert", kind, str(how), tuple(c for _, c in oc.decisions)))
+    ctx.floor("fault-free upload paths inspected for property-type registration", n, 12)
+
+
 def r_lists(ctx: Ctx, model, mach, prop="C08", rule="D-read", kinds=("adsorbate", "material")):
     """repeated property rows of one type (what the writer stores for a list-valued property) come back as one list, in row order:
     interpreted on the readers with a pinned two-row result of the property table"""
@@ -476,6 +530,7 @@ def run(ctx: Ctx):
     r_ddl(ctx, model, mach)
     r_collation(ctx, mach)
     r_paths(ctx, model, mach)
+    r_autoinsert(ctx, model, mach)
     r_lists(ctx, model, mach)
     r_pairing(ctx, model, mach)
     r_bool(ctx, model, mach)
